@@ -115,8 +115,19 @@ def impl(case):
     arr = np.array(dem, dtype=case["call"]["dtype"]).reshape(nr, nc)
     if scale != 1:      # eighths: exact in float32, scaled to integers for the model
         arr = np.where(arr == nodata, arr, arr / scale).astype(case["call"]["dtype"])
+    # float rasters: also nodata values that float32 cannot hold exactly, passed as plain Python floats (the missing cells
+    # hold the value rounded to the raster's type); any negative max_depth means "no limit" (round-5 seeds)
+    key = sum(int(v) for v in dem if v != nodata) + nr
+    nd_model = nodata
+    if arr.dtype.kind == "f" and key % 3:
+        nd_py = [1e20, -9999.9][key % 3 - 1]
+        arr = np.where(arr == nodata, np.array(nd_py, dtype=arr.dtype), arr).astype(arr.dtype)
+        nodata = nd_py
+    md = [None, -1, -0.5, -0.001, -2.0, -100][key % 6]
     before = arr.copy()
     kw = dict(nodata=nodata, connectivity=conn, outlets="min" if mode == 1 else "edge")
+    if md is not None:
+        kw["max_depth"] = md
     if mode == 2:
         kw["idxs_pit"] = np.array(pits, dtype=np.int64)
     st, v = call_impl(pdem.fill_depressions, arr, **kw)
@@ -125,6 +136,9 @@ def impl(case):
     if st != "ok":
         return [[-2], [st, str(v)[:100]]]
     f, d8 = v
+    if nodata != nd_model:
+        f = np.where(f == np.array(nodata, dtype=f.dtype), np.array(nd_model, dtype=f.dtype), f)
+        nodata = nd_model
     if scale != 1:
         f = np.where(f == nodata, f, f * scale)
     if np.any(f != np.round(f)) or d8.dtype != np.uint8 or f.dtype != arr.dtype:
@@ -133,7 +147,8 @@ def impl(case):
     if unsigned:
         out[0] = [(nodata_model if x == nodata else x) for x in out[0]]
     if case["call"].get("from_dem"):
-        st2, flw = call_impl(pyflwdir.from_dem, arr, nodata=nodata, outlets="min" if mode == 1 else "edge")
+        kw2 = {k_: v_ for k_, v_ in kw.items() if k_ in ("nodata", "max_depth", "outlets")}
+        st2, flw = call_impl(pyflwdir.from_dem, arr, **kw2)
         if st2 != "ok" or [int(x) for x in flw.to_array().ravel()] != _canon_d8(out[1], nr, nc):
             return [[-5], ["from_dem disagrees with fill_depressions"]]
     return out
